@@ -12,7 +12,7 @@
 // (declared cpu/mem/time/io safe so that it may be called inside limited contexts).  The programs
 // themselves call runtime.callcontext; the runner only reports what the host saw:
 //
-//	P <id> <class> <TotalAlloc delta in KiB> | <trace item> <trace item> …
+//	P <id> <class> <TotalAlloc delta in KiB> <wall ms> | <trace item> <trace item> …
 //
 // class: ok | err | killed | panic.  One line per program, flushed immediately; a watchdog prints
 // `P <id> timeout` and exits 3 if a program runs longer than -timeout seconds; a Go panic in another
@@ -104,9 +104,11 @@ func main() {
 		// announce first, so that a process crash is attributable
 		fmt.Fprintf(out, "R %s\n", p.id)
 		out.Flush()
+		t0 := time.Now()
 		class, trace, kib := runOne(p)
+		ms := time.Since(t0).Milliseconds()
 		close(done)
-		fmt.Fprintf(out, "P %s %s %d | %s\n", p.id, class, kib, strings.Join(trace, " "))
+		fmt.Fprintf(out, "P %s %s %d %d | %s\n", p.id, class, kib, ms, strings.Join(trace, " "))
 		out.Flush()
 	}
 }
